@@ -309,7 +309,7 @@ func run(c Case) (fs []failure, inconc string, facts map[string]bool, hist any) 
 				inverted = true
 				break
 			}
-			if c.Txn && j <= prev && !reported {
+			if c.Txn && j <= prev {
 				fs = append(fs, failure{"executed-twice-in-transactional-mode", fmt.Sprintf("key %q: write %s executed again at position %d (%v)", k, v, i, obs)})
 				break
 			}
